@@ -34,32 +34,27 @@ theorem chunk_size_nf (d : Nat) : chunk_size (d : Int) = (d : Int) / num_chunks 
   simp (disch := omega) only [chunk_size, Int.tdiv_eq_ediv_of_nonneg] <;>
     first | rfl | exact key | exact key' | omega
 
-theorem chunk_begin_nf (d : Nat) (i : Int) : chunk_begin_it (d : Int) i = chunk_size d * i := by
-  simp only [chunk_begin_it, Int.zero_add] <;>
-    first | rfl | exact Int.mul_comm _ _ | omega
-
-theorem chunk_end_nf (d : Nat) (i : Int) : chunk_end_it (d : Int) i =
-    if i < num_chunks d - 1 then chunk_size d * i + chunk_size d else d := by
-  simp only [chunk_end_it, chunk_begin_nf] <;> (repeat' split) <;> omega
-
-/-- case A: 32 chunks of size d/32+1 -/
-theorem nf_big (d : Nat) (h : 160 ≤ d) : num_chunks (d : Int) = 32 ∧ chunk_size (d : Int) = (d : Int) / 32 + 1 := by
-  have hn : num_chunks (d : Int) = 32 := by rw [num_chunks_nf]; split <;> omega
-  refine ⟨hn, ?_⟩
-  rw [chunk_size_nf, hn]
-
-/-- case B: d/4+1 chunks, chunk size between 1 and 4 -/
-theorem nf_small (d : Nat) (h : d < 160) : num_chunks (d : Int) = (d : Int) / 4 + 1 ∧ 1 ≤ chunk_size (d : Int) ∧ chunk_size (d : Int) ≤ 4 := by
-  have hn : num_chunks (d : Int) = (d : Int) / 4 + 1 := by rw [num_chunks_nf]; split <;> omega
+theorem chunk_size_pos (d : Nat) : 1 ≤ chunk_size (d : Int) := by
+  have hn := num_chunks_pos d
   have h0 : (0 : Int) ≤ d := Int.natCast_nonneg d
-  refine ⟨hn, ?_, ?_⟩
-  · rw [chunk_size_nf, hn]
-    have : 0 ≤ (d : Int) / ((d : Int) / 4 + 1) := Int.ediv_nonneg h0 (by omega)
-    omega
-  · rw [chunk_size_nf, hn]
-    have : (d : Int) / ((d : Int) / 4 + 1) < 4 := by
-      apply Int.ediv_lt_of_lt_mul <;> omega
-    omega
+  have : 0 ≤ (d : Int) / num_chunks d := Int.ediv_nonneg h0 (by omega)
+  rw [chunk_size_nf]; omega
+
+/-- chunk_size * num_chunks covers the distance (chunk_size is rounded up) -/
+theorem chunk_size_covers (d : Nat) : (d : Int) ≤ chunk_size (d : Int) * num_chunks (d : Int) := by
+  have hn := num_chunks_pos d
+  have h1 := Int.mul_ediv_add_emod (d : Int) (num_chunks d)
+  have h2 := Int.emod_lt_of_pos (d : Int) (show 0 < num_chunks (d : Int) by omega)
+  rw [chunk_size_nf, Int.add_mul, Int.one_mul, Int.mul_comm]
+  omega
+
+theorem chunk_begin_nf (d : Nat) (i : Int) : chunk_begin_it (d : Int) i = min (chunk_size d * i) d := by
+  simp only [chunk_begin_it, Int.zero_add] <;>
+    first | rfl | (rw [Int.mul_comm]) | omega
+
+theorem chunk_end_nf (d : Nat) (i : Int) : chunk_end_it (d : Int) i = min (chunk_size d * (i + 1)) d := by
+  simp only [chunk_end_it, Int.zero_add] <;>
+    first | rfl | (rw [Int.mul_comm]) | omega
 
 theorem ite_decide_true (c A B : Prop) [Decidable c] [Decidable A] [Decidable B] :
     ((if c then decide A else decide B) = true) ↔ ((c → A) ∧ (¬c → B)) := by
@@ -87,60 +82,28 @@ theorem tilesB_iff (d : Nat) : tilesB d = true ↔
     obtain ⟨a, b, c, e, f⟩ := h6 i hi
     exact ⟨⟨⟨a, b⟩, c⟩, e, f⟩
 
-theorem tilesB_of (d : Nat) (hcs0 : 0 ≤ chunk_size (d : Int))
-    (hlast : chunk_size (d : Int) * (num_chunks (d : Int) - 1) ≤ d) : tilesB d = true := by
+/-- the chunks tile the range for EVERY distance -/
+theorem tilesB_all (d : Nat) : tilesB d = true := by
   have hn := num_chunks_pos d
+  have hcs := chunk_size_pos d
+  have hcov := chunk_size_covers d
+  have h0 : (0 : Int) ≤ d := Int.natCast_nonneg d
   rw [tilesB_iff]
-  refine ⟨hn, by simp [per_chunk_len], by simp [bulk_count], by simp [per_chunk_init], by simp [chunk_begin_nf], ?_⟩
+  refine ⟨hn, by simp [per_chunk_len], by simp [bulk_count], by simp [per_chunk_init], ?_, ?_⟩
+  · rw [chunk_begin_nf, Int.mul_zero]; omega
   intro i hi
-  have hi' : (i : Int) < num_chunks (d : Int) := by omega
-  have hmono : ∀ j : Int, j ≤ num_chunks (d : Int) - 1 → chunk_size (d : Int) * j ≤ d := by
-    intro j hj
-    exact Int.le_trans (Int.mul_le_mul_of_nonneg_left hj hcs0) hlast
-  refine ⟨by simp [scan_init], ?_, ?_, ?_, ?_⟩
-  · rw [chunk_begin_nf, chunk_end_nf]
-    split
-    · omega
-    · exact hmono i (by omega)
-  · rw [chunk_end_nf]
-    split
-    · have := hmono (i + 1) (by omega)
-      rw [Int.mul_add, Int.mul_one] at this
-      exact this
-    · exact Int.le_refl _
-  · intro h
-    rw [chunk_end_nf, chunk_begin_nf, if_pos (by omega)]
-    push_cast
+  have hstep : chunk_size (d : Int) * ((i : Int) + 1) = chunk_size (d : Int) * i + chunk_size (d : Int) := by
     rw [Int.mul_add, Int.mul_one]
+  refine ⟨by simp [scan_init], ?_, ?_, ?_, ?_⟩
+  · rw [chunk_begin_nf, chunk_end_nf, hstep]; omega
+  · rw [chunk_end_nf]; omega
+  · intro _
+    rw [chunk_end_nf, chunk_begin_nf]
+    push_cast
+    rfl
   · intro h
-    rw [chunk_end_nf, if_neg (by omega)]
-
-theorem tileCond_imp (d : Nat) (h : tileCond d = true) : tilesB d = true := by
-  simp only [tileCond, Bool.or_eq_true, decide_eq_true_eq] at h
-  by_cases hd : d < 160
-  · obtain ⟨hn, h1, h4⟩ := nf_small d hd
-    apply tilesB_of d (by omega)
-    rw [hn]
-    have : chunk_size (d : Int) * ((d : Int) / 4 + 1 - 1) ≤ 4 * ((d : Int) / 4 + 1 - 1) :=
-      Int.mul_le_mul_of_nonneg_right h4 (by omega)
-    omega
-  · obtain ⟨hn, hcs⟩ := nf_big d (by omega)
-    apply tilesB_of d (by omega)
-    rw [hn, hcs]
-    omega
-
-theorem tilesB_imp (d : Nat) (h : tilesB d = true) : tileCond d = true := by
-  simp only [tileCond, Bool.or_eq_true, decide_eq_true_eq]
-  by_cases hd : d < 160
-  · exact Or.inl hd
-  · right
-    obtain ⟨hn, hcs⟩ := nf_big d (by omega)
-    rw [tilesB_iff] at h
-    obtain ⟨_, _, _, _, _, h6⟩ := h
-    have h31 := (h6 31 (by rw [hn]; decide)).2.1
-    rw [chunk_begin_nf, chunk_end_nf, hn, hcs] at h31
-    simp at h31
-    omega
+    have e : (i : Int) + 1 = num_chunks (d : Int) := by omega
+    rw [chunk_end_nf, e]; omega
 
 theorem scan_continue_nf (D i it : Int) : scan_continue D i it = decide (it ≠ chunk_end_it D i) := by
   simp [scan_continue]
@@ -320,11 +283,11 @@ theorem begin_nonneg (d : Nat) (t : TileFacts d) (i : Nat) (hi : i < (num_chunks
   unfold bnd at this
   rwa [if_pos hi] at this
 
-theorem findIfPar_correct (d : Nat) (ht : tilesB d = true) (p : Int → Bool) (fuel : Nat) (hf : d < fuel) :
+theorem findIfPar_correct (d : Nat) (p : Int → Bool) (fuel : Nat) (hf : d < fuel) :
     (findIfPar p d fuel).res = firstSat p d ∧
     (∀ j ∈ (findIfPar p d fuel).evals, 0 ≤ j ∧ j < d) ∧
     (findIfPar p d fuel).ranOut = false ∧ (findIfPar p d fuel).storeOob = false := by
-  have t := tileFacts d ht
+  have t := tileFacts d (tilesB_all d)
   obtain ⟨K, hex, hKn, hnone, hsome⟩ := executed_closed d t p fuel
   have hscan := fun i hi => scanChunk_closed d t p fuel i hf hi
   unfold findIfPar
